@@ -32,6 +32,8 @@ def sh(cmd, **kw):
 
 def run_seed(name, checks, tiers):
     sdir = os.path.join(SEEDED, name)
+    if not os.path.exists(os.path.join(sdir, "meta.json")) or not os.path.exists(os.path.join(sdir, "patch.diff")):
+        return {"name": name, "error": "meta.json or patch.diff missing"}
     meta = json.load(open(os.path.join(sdir, "meta.json")))
     prop = meta["property"]
     if not checks:
